@@ -45,17 +45,26 @@ def _boxes(tier):
     from mc import lockstep as L
 
     B = []
+    # quick: <= ~4 CPU-minutes in total (the machine budget set by the lead); hbar and cutoff are paired
+    Q = []
+    for c, h in ((1, 2.0), (2, 0.63), (3, 2.0), (4, 0.63)):  # first level: every cutoff 1..4, all roots, d <= 3
+        Q += [(1, c, h, 1, 2, "quick"), (2, c, h, 1, 2, "quick"), (3, c, h, 1, 2, "quick")]
+    Q.append((1, 3, 2.0, 3, 2, "quick"))
+    Q += [(2, 2, 0.63, 2, 2, "quick"), (2, 3, 2.0, 2, 1, "quick")]
+    Q.append((3, 3, 2.0, 2, 0, "quick"))  # depth 2 on 3 modes from the vacuum: the Gaussian simulator takes part
     if tier == "quick":
+        B = Q
+    else:
+        B = list(Q)  # thorough is a superset of quick
         for h in (2.0, 0.63):
-            for c in (1, 2, 3, 4):  # first level: every cutoff, both hbar, all roots
+            for c in (1, 2, 3, 4):
                 B += [(1, c, h, 2, 2, "quick"), (2, c, h, 1, 2, "quick"), (3, c, h, 1, 2, "quick")]
         for c in (1, 2, 3, 4):
             B.append((1, c, 2.0, 3, 2, "quick"))
         for c, h in ((1, 0.63), (2, 2.0), (3, 0.63), (4, 2.0)):
             B.append((2, c, h, 2, 2, "quick"))
-        B.append((2, 3, 2.0, 3, 0, "quick"))  # depth 3 from the vacuum: the Gaussian simulator takes part
+        B.append((2, 3, 2.0, 3, 0, "quick"))
         B += [(3, 1, 2.0, 2, 0, "quick"), (3, 2, 0.63, 2, 1, "quick"), (3, 3, 2.0, 2, 1, "quick"), (3, 4, 0.63, 2, 0, "quick")]
-    else:
         for h in (2.0, 1.0, 0.63):
             for c in (1, 2, 3, 4, 5):
                 B += [(1, c, h, 3, 2, "thorough"), (2, c, h, 2, 2, "thorough"), (3, c, h, 1, 2, "thorough"), (4, c, h, 1, 2, "thorough")]
@@ -68,7 +77,7 @@ def _boxes(tier):
     for d, c, h, depth, ph, level in B:
         for occ in L.number_roots(d, ph, c):
             k = (d, c, h, occ)
-            if k not in merged or depth > merged[k][0]:
+            if k not in merged or depth > merged[k][0] or (depth == merged[k][0] and level == "thorough"):
                 merged[k] = (depth, level)
     return [(d, c, h, occ, depth, level) for (d, c, h, occ), (depth, level) in sorted(merged.items())]
 
@@ -129,7 +138,9 @@ def run(ctx, builddir):
                "Hamiltonians of Beamsplitter, Squeezing2 and ControlledZ contradict their own documented matrices and are not used); "
                "two truncations must agree to 1e-10 (1-/2-mode gates; otherwise HARNESS error) or 1e-9 (3-/4-mode GaussianTransform, tabulated once per "
                "gate and local occupation in phase 0; otherwise that comparison is skipped and counted as ref_unconverged)")
-    ctx.assume("hbar values and cutoffs are paired per box (see coverage.boxes), not a full cross product at every depth")
+    ctx.assume("hbar values and cutoffs are paired per box (see coverage.boxes), not a full cross product at every depth; the quick tier was shrunk to "
+               "~4 CPU-minutes on request (about 22k transitions); the previous quick boxes (112k transitions, all hbar x cutoff at the first level, "
+               "depth 2 from 1-photon roots on 3 modes, depth 3 on 2 modes) are part of the thorough tier")
 
     # phase 0: dense-reference tables of the >= 3-mode active gates (one expensive evaluation per gate and local occupation)
     need = {}
